@@ -30,12 +30,13 @@ type mut struct {
 }
 
 type cfg struct {
-	Name   string
-	Relist bool // the consumer also performs one relist (list snapshot, reconcile, watcher.reset) at a scheduler-chosen moment
-	Hist   []mut
-	Faults map[int]fakeapi.WatchFault // by watch call number
-	Mode   string
-	Bound  int
+	StartRV int // the server's versions start above this (0: from 1)
+	Name    string
+	Relist  bool // the consumer also performs one relist (list snapshot, reconcile, watcher.reset) at a scheduler-chosen moment
+	Hist    []mut
+	Faults  map[int]fakeapi.WatchFault // by watch call number
+	Mode    string
+	Bound   int
 }
 
 type inst struct {
@@ -62,13 +63,14 @@ func history(n int) []mut {
 func (in *inst) run() {
 	c := in.c
 	in.srv = fakeapi.New()
+	in.srv.SetStartRV(c.StartRV)
 	in.srv.WatchFaults = c.Faults
 	in.cache = map[string]metav1.Object{}
 	stop := make(chan struct{})
 	quit := make(chan struct{})
 	w := kcache.VNewWatcher(context.Background(), hx.Log, stop, in.srv)
 	// the "first list" saw an empty server at version 0
-	if err := w.Reset("0"); err != nil {
+	if err := w.Reset(fmt.Sprint(c.StartRV)); err != nil {
 		vs.Fail("reset | %v", err)
 		return
 	}
@@ -159,6 +161,23 @@ func (in *inst) check(r *vs.Result) []string {
 	if in.final != in.server {
 		msgs = append(msgs, fmt.Sprintf("watch events lost across reconnect | %s: after all reconnects (virtual time %ds, %d Watch calls at versions %v) the consumer's cache holds %s but the server holds %s; events received: %v",
 			desc, in.clock/1e9, in.watches, in.finalRV, in.final, in.server, in.received))
+	}
+	// exactly once: a reconnect resumes after the last event received, so no frame reaches the consumer twice
+	dupFault := false
+	for _, f := range c.Faults {
+		if f.Kind == "dup" {
+			dupFault = true
+		}
+	}
+	if !dupFault && !c.Relist {
+		seenEv := map[string]bool{}
+		for _, e := range in.received {
+			if seenEv[e] {
+				msgs = append(msgs, fmt.Sprintf("watch event delivered twice | %s: %s reached the consumer twice (Watch calls at versions %v); events received: %v", desc, e, in.finalRV, in.received))
+				break
+			}
+			seenEv[e] = true
+		}
 	}
 	// "within the reconnect delay": a failed connect is retried one reconnect delay (1 s) later, however many failed before
 	for i := 0; i+1 < len(in.watchTimes); i++ {
@@ -253,6 +272,12 @@ func Property() runner.Property {
 			out = append(out, scenario(cfg{Name: "error,ok/h2", Hist: history(2), Faults: map[int]fakeapi.WatchFault{1: W("error", 0)}, Mode: "S2", Bound: d}))
 			out = append(out, scenario(cfg{Name: "error,error,ok/h2", Hist: history(2), Faults: map[int]fakeapi.WatchFault{1: W("error", 0), 2: W("error", 0)}, Mode: "S2", Bound: d}))
 			out = append(out, scenario(cfg{Name: "close@1,close@1/h3", Hist: history(3), Faults: map[int]fakeapi.WatchFault{1: W("close", 1), 2: W("close", 1)}, Mode: "S2", Bound: d}))
+			// versions cross 9 -> 10 (a resume version compared as a string goes wrong there)
+			for _, pos := range []int{1, 2, 3} {
+				out = append(out, scenario(cfg{Name: fmt.Sprintf("digit-boundary/close@%d/h4", pos), StartRV: 8, Hist: history(4), Faults: map[int]fakeapi.WatchFault{1: W("close", pos)}, Mode: "S2", Bound: d}))
+			}
+			// a reconnect answered with 410 Gone (connect error): nothing may be skipped by starting over "from now"
+			out = append(out, scenario(cfg{Name: "close@1,expired,ok/h3", Hist: history(3), Faults: map[int]fakeapi.WatchFault{1: W("close", 1), 2: W("expired", 0)}, Mode: "S2", Bound: d}))
 			out = append(out, scenario(cfg{Name: "close@1/h1", Hist: history(1), Faults: map[int]fakeapi.WatchFault{1: W("close", 1)}, Mode: "S1"}))
 			// a relist in the middle of a delete + re-create: events the watcher took before the reset must not be applied after it
 			recreate := []mut{{"set", "a", "l=1"}, {"del", "a", ""}, {"set", "a", "l=1"}}
